@@ -36,10 +36,12 @@ CLAIMED = {
     "C05": dict(
         text="Lean theorems over the reals, for ALL coordinates: an atom placed by find_coordinates lies at its template distance from every fit atom up to that atom's fit residual (| |new-P| - |h-p| | <= |T p - P|); atoms placed by one fit are at exactly their template distance and distinct template points stay distinct; "
         "rotate_tetrahedral keeps every rotated atom's distance to both bond atoms and to the other rotated atoms for every angle, three 120-degree turns or +120/-120 return every atom (the probing rotations move nothing); make_atom_with_no_bonds places the atom exactly 1 A away; "
-        "in every variant of the kernel-checked C04 table a torsion change keeps every bond length and bond angle with all atoms present, hydrogens included (added atoms stay attached). "
+        "in every variant of the kernel-checked C04 table a torsion change keeps every bond length and bond angle with all atoms present, hydrogens included (added atoms stay attached); "
+        "rebuilt heavy atoms (Model/RepairFit.lean: get_nearest_bonds and repair_heavy's choice of the three fit atoms, kernel tables over the regenerated topology): for every amino-acid definition a side chain truncated at any atom, the carbonyl O and every leaf atom are rebuilt from three atoms pairwise within two template bonds, i.e. from a fit that no torsion of the structure can spoil (truncated_rebuild_fits_local, carbonyl_O_and_leaves_fit_local); refuted for an atom missing from the middle of a flexible chain (single_missing_middle_atom_refuted: known finding). "
         "Tie/oracle: every observed find_coordinates / rotate_tetrahedral / make_atom_with_no_bonds call vs the Float model (1e-9), the residual inequality evaluated at every observed fit, every observed torsion change checked for all bonded and 1-3 distances, "
-        "and on the returned biomolecule every added atom's bond lengths (within the largest fit residual of its residue), bond angles (within input distortion + 8 degrees) and 0.5 A separation.",
-        note="which atoms each placement fits on (get_nearest_bonds, branch choice in rebuild_tetrahedral/optimize.py) is read from the monitored calls, not modelled; final-state tolerances are the oracle's reading of 'within the distortion already present'; no nucleic-acid structure offline",
+        "get_nearest_bonds vs the model for every atom of every definition (3 787), the three atoms every observed repair_heavy fit used vs the model's fitAtoms, every fit point paired with the atom its template point names (neighbours taken from the chain order), "
+        "and on the returned biomolecule every added atom's bond lengths (within the largest fit residual of its residue), bond angles (hydrogens and rebuilt heavy atoms: within input distortion + 20 degrees; groups of three hydrogens 3 degrees) and 0.5 A separation.",
+        note="which atoms a HYDROGEN placement fits on (branch choice in add_hydrogens / rebuild_tetrahedral / optimize.py) is read from the monitored calls, not modelled (for rebuilt heavy atoms it is modelled); final-state tolerances are the oracle's reading of 'within the distortion already present'; no nucleic-acid structure offline",
         ref="DESIGN.md §4 C05",
     ),
     "C01": dict(
@@ -72,7 +74,7 @@ CLAIMED = {
         "charge_guard_spec (over Q, model run in Float against the real noninteger_charge): a total passes the guard exactly when it is within the tolerance of some integer; repair_gate_spec: is_repairable lets a structure through to repair exactly when something is missing and at most one tenth of the heavy atoms (model compared with the real function on counts around the limit, and with the decision observed in runs on peptides whose missing count straddles the limit). "
         "Oracle: fault injection into EVERY stage of that generated skeleton on the real code x {ValueError, RuntimeError} x output path {absent, pre-existing with sentinel content and mtime}; eleven natural failure triggers; "
         "hydrogen-free peptides under --assign-only and CA traces (totals that cannot be integral) must fail and leave the path alone or write an integral total; "
-        "success side: side-chain-complete peptides with each residue type forced in turn x six force fields, and PARSE with --neutraln/--neutralc at each residue type (PEOEPB terminal gaps, PARSE neutral C-terminal PRO and the non-raising is_repairable are known findings).",
+        "success side: C02's structure_total_integral / integral_total_passes_guard (every sequence of fully parameterised amino-acid states has an integral exact total and passes the guard) and, on real runs, side-chain-complete peptides with each residue type forced in turn x six force fields, and PARSE with --neutraln/--neutralc at each residue type (PEOEPB terminal gaps, PARSE neutral C-terminal PRO and the non-raising is_repairable are known findings).",
         note="the OS is not modelled (a crash inside write() leaves a partial file); success for ALL sequences is checked on the windows run, not proved by a kernel table",
         ref="DESIGN.md §4 C12",
     ),
@@ -94,10 +96,10 @@ CLAIMED = {
         text="Lean theorems about a names-level model of assign_termini / set_termini (hidden-chain loop included) and the specification formalCharge: a cyclic chain gets no termini; only flags and patch lists change; "
         "in every peptide chain exactly the first residue gets one N-terminus patch and exactly the last one C-terminus patch with everything in between untouched; trailing waters/hetero groups are looked through; "
         "with no hidden chain end set_termini is chain-wise (chain ids, numbering, order irrelevant); a neutral N-terminus shifts the formal charge by exactly -1; formal charges lie in [-2,2]; "
-        "charge_table (kernel, regenerated data): for each of the six force fields and every amino-acid state x chain position it parameterises completely, the exact integer sum of the state's charges is the formal charge its name stands for. "
+        "charge_table (kernel, regenerated data): for each of the six force fields and every amino-acid state x chain position it parameterises completely, the exact integer sum of the state's charges is the formal charge its name stands for; structure_total_integral: hence for EVERY sequence of such states (any length, composition, order) the exact total is the sum of the formal charges, and integral_total_passes_guard: such a total passes the total-charge guard for every tolerance. "
         "Ties: the real set_termini on generated chain layouts (blank chains, internal OXT, trailing hetero residues, the cyclic test peptide, neutral flags) vs the model, flags and patch lists of every residue; "
         "end to end residue.charge of every fully parameterised residue vs formalCharge evaluated by the driver, total = sum, PQR charge column = total.",
-        note="the cyclic test enters the model as an oracle bit logged from the real call; charge table: kernel-checked for amino-acid states over the regenerated topology and the regenerated final force-field maps (516 fully parameterised cells; N-terminal proline excluded - checked on runs; PARSE neutral C-terminal proline refuted: known finding under C12); that a residue's final atoms are those of the definition it is named after is checked on real runs (C03 oracle); no nucleic-acid structure offline",
+        note="the cyclic test enters the model as an oracle bit logged from the real call; charge table: kernel-checked for amino-acid states over the regenerated topology and the regenerated final force-field maps (516 fully parameterised cells; N-terminal proline excluded - checked on runs; PARSE neutral C-terminal proline refuted: known finding under C12); that a residue's final atoms are those of the definition it is named after is C03's stages_reach_named_definition (up to add_hydrogens), chained with this table by reading, not by a third theorem; nucleotides are not in the table",
         ref="DESIGN.md §4 C02",
     ),
     "C06": dict(
